@@ -92,3 +92,12 @@ From FG.gen Require Import Tables_gen.
 Theorem C11_constants_dumped :
   c_tt_entry_size = Z.of_N TTImpl.TtEntrySize /\ c_tt_entry_sizeof = Z.of_N TTImpl.TtEntrySize /\ c_tt_max_size_mb = TTImpl.MaxSizeInMB.
 Proof. repeat split; reflexivity. Qed.
+
+(* tie to the source: the constants the model copies from the Go source equal what the running engine reports
+   (gen/Tables_gen.v is regenerated on every run by `verifh dump-tables`) *)
+From Coq Require Import ZArith NArith. (* consts *)
+From FG Require ConstTie.
+From FG Require TTImpl.
+Theorem C11_model_constants_dumped :
+  TTImpl.ValueInf = c_value_inf /\ TTImpl.ValueMax = c_value_max /\ TTImpl.ValueCheckMate = c_value_checkmate /\ TTImpl.MaxDepth = c_max_depth /\ TTImpl.ValueCheckMateThreshold = c_value_checkmate_threshold /\ TTImpl.valueShift = c_value_shift /\ Z.of_N TTImpl.TtEntrySize = c_tt_entry_size /\ TTImpl.MaxSizeInMB = c_tt_max_size_mb.
+Proof. exact ConstTie.ttimpl_constants_dumped. Qed.
